@@ -101,7 +101,7 @@ func TemplateProgram(t *rapid.T) Program {
 			body = append(body, fmt.Sprintf("\t{\n\t\ta, b, c := i32(%s), i32(%s), i32(%s)\n\t\tprintln(a+b, a-b, a*b, a/c, a%%c, a&b, a|b, a^b, a<<u32(c%%32), a>>u32(c%%32))\n\t\tprintln(a < b, a <= b, a == b, a != b, a > b, a >= b)\n\t\tu := u32(a)\n\t\tprintln(u/u32(c), u%%u32(c), u>>u32(c%%32))\n\t}", wi(a), wi(b), wi(c)))
 		case "arith64":
 			a, b, c := sm("a"), sm("b"), pos("c")
-			body = append(body, fmt.Sprintf("\t{\n\t\ta, b, c := i64(%s)*1000003, i64(%s)*7919, i64(%s)\n\t\tprintln(a+b, a-b, a*b, a/c, a%%c, a&b, a|b, a^b, a<<u64(c), a>>u64(c))\n\t\tu := u64(a)\n\t\tprintln(u/u64(c), u%%u64(c), u>>u64(c))\n\t\tprintln(i32(a), u8(a), i16(b), u16(b), i8(b))\n\t}", wi(a), wi(b), wi(c)))
+			body = append(body, fmt.Sprintf("\t{\n\t\ta, b, c := i64(%s)*1000003, i64(%s)*7919, i64(%s)\n\t\tprintln(a+b, a-b, a*b, a/c, a%%c, a&b, a|b, a^b, a<<u64(c), a>>u64(c))\n\t\tu := u64(a)\n\t\tprintln(u/u64(c), u%%u64(c), u>>u64(c))\n\t\tprintln(i32(a), u8(a), u16(b), u32(b))\n\t}", wi(a), wi(b), wi(c)))
 		case "float":
 			x, y := fl("x"), fl("y")
 			body = append(body, fmt.Sprintf("\t{\n\t\tx, y := f64(%s), f64(%s)\n\t\tprintln(x+y, x-y, x*y, x/(y+100))\n\t\tprintln(x < y, x == y, i32(x), i64(y*1000), f32(x)*f32(y))\n\t\tprintln(f64(i32(%s)), f32(i64(%s)))\n\t}", x, y, wi(sm("k")), wi(sm("l"))))
@@ -127,7 +127,7 @@ func TemplateProgram(t *rapid.T) Program {
 			body = append(body, fmt.Sprintf("\t{\n\t\tm := make(map[int]int)\n\t\tfor i := 0; i < %s; i++ {\n\t\t\tm[i*%s] = i\n\t\t}\n\t\tv, ok := m[%s]\n\t\tdelete(m, 0)\n\t\tprintln(len(m), v, ok)\n\t}", wi(n), wi(pos("k")), wi(pos("q"))))
 		case "conv":
 			v := sm("v")
-			body = append(body, fmt.Sprintf("\t{\n\t\tv := i64(%s)\n\t\tprintln(i8(v), u8(v), i16(v), u16(v), i32(v), u32(v), u64(v), f32(v), f64(v))\n\t\tf := f64(v) / 3\n\t\tprintln(i32(f), i64(f), f32(f))\n\t}", wi(v)))
+			body = append(body, fmt.Sprintf("\t{\n\t\tv := i64(%s)\n\t\tprintln(u8(v), u16(v), i32(v), u32(v), u64(v), f32(v), f64(v))\n\t\tf := f64(v) / 3\n\t\tprintln(i32(f), i64(f), f32(f))\n\t}", wi(v)))
 		case "array":
 			body = append(body, fmt.Sprintf("\t{\n\t\ta: [4]i32\n\t\tfor i := range a {\n\t\t\ta[i] = i32(i) * %s\n\t\t}\n\t\tb := a\n\t\tb[2] = 7\n\t\tprintln(a[2], b[2], a == b, len(a))\n\t}", wi(sm("m")%1000)))
 		case "multi":
